@@ -122,7 +122,9 @@ ChVals(tx) == LET sel == SelectSeq(tx, LAMBDA r : r.o = "C" /\ r.f = 0) \o Selec
 
 \* the call record handed to System: expression trees are flattened by the specification's LC operators
 CallOf(r) ==
-  IF r.op = "expr"
+  IF r.op = "commit" /\ r.role = "P" /\ ~CmpH /\ Has(r, "ret") /\ Len(r.ret) = 2
+  THEN [op |-> "commit", v |-> r.v, vb |-> r.vb, Vobs |-> r.ret[1]]
+  ELSE IF r.op = "expr"
   THEN [op |-> "con", lc |-> ExprTerms(r.e) \o (IF Has(r, "c") THEN FromConst(r.c) ELSE << >>)]
   ELSE r
 
